@@ -6,6 +6,7 @@ A layout is a list of [relpath, kind]:
   "f"  regular file          "d"  directory
   "lo" symlink to a directory OUTSIDE the tree      "lf" symlink to a file outside
   "lx" dangling symlink      "li:<relpath>" symlink to <relpath> inside the tree
+A FILE named ".git" gets a gitdir pointer line (git worktree / submodule / --separate-git-dir checkout).
 Files named branch-format directly inside a ".bzr" directory get a valid bzr
 meta-dir format string (so the directory is a control directory for ControlDir.open).
 """
@@ -42,6 +43,24 @@ def setup(scratch):
     with open(os.path.join(out, "sub", "p"), "w") as f:
         f.write("outside")
     _st["outside"] = out
+
+
+def reset_outside():
+    """Re-create the directory outside the trees (a defective clean-tree may have emptied it)."""
+    _ensure()
+    out = _st["outside"]
+    shutil.rmtree(out, ignore_errors=True)
+    os.makedirs(os.path.join(out, "sub"))
+    for rel in ("o", os.path.join("sub", "p")):
+        with open(os.path.join(out, rel), "w") as f:
+            f.write("outside")
+
+
+def swap_for_outside_link(base, rel):
+    """Replace the directory base/rel (after it was versioned) by a symlink to the outside directory."""
+    p = os.path.join(base, rel)
+    shutil.rmtree(p)
+    os.symlink(_st["outside"], p)
 
 
 def outside_state():
@@ -84,6 +103,8 @@ def materialise(base, layout, ignore_lines, fmt):
             with open(p, "wb") as f:
                 if rel.endswith(".bzr/branch-format"):
                     f.write(BZR_FORMAT)
+                elif rel == ".git" or rel.endswith("/.git"):
+                    f.write(b"gitdir: ../elsewhere/.git/worktrees/x\n")     # gitdir pointer file
                 else:
                     f.write(b"x")
         elif kind == "lo":
